@@ -124,6 +124,9 @@ func Explore(r *engine.Rec, prog rt.Program, o Opts) {
 	r.Distinct += int64(len(outcomes))
 	r.Note("all_interleavings", allInterleavings)
 	if !allInterleavings {
+		if bound >= 0 {
+			r.Add(fmt.Sprintf("programs_covered_up_to_preemption_bound_%d_only", bound), 1)
+		}
 		r.Note("preemption_bound_completed", bound)
 		r.Exhaustive = r.Exhaustive && bound >= 0
 	}
